@@ -5,6 +5,8 @@ from replay.common import main
 
 
 def scenarios(seed, tier, failed):
+    for cap in (2, 3):
+        yield {'kind': 'reject', 'capacity': cap, 'deferred': False, 'queue': 'fifo', 'finished': cap - 1, 'timeout': 20}
     for cap in (1, 2, 3):
         for deferred in (False, True):
             for kind in ('fifo', 'lifo'):
@@ -22,7 +24,12 @@ def run(sc):
     flags = []
     try:
         for i in range(sc['capacity']):
-            ao.post_fifo(Event(signal='C31_KEEP%d' % i), period=1000.0, times=2, deferred=True)
+            if i < sc.get('finished', 0):
+                ao.post_fifo(Event(signal='C31_DONE%d' % i), period=0.01, times=1, deferred=False)
+            else:
+                ao.post_fifo(Event(signal='C31_KEEP%d' % i), period=1000.0, times=2, deferred=True)
+        if sc.get('finished'):
+            time.sleep(0.1)
         flags = [pe.task_run_event for pe in ao.posted_events_queue]
         post = ao.post_fifo if sc['queue'] == 'fifo' else ao.post_lifo
         raised = False
@@ -38,7 +45,8 @@ def run(sc):
         if 'C31_REJECTED' in names:
             return False, 'the rejected source posted its event %d time(s) (deferred=%s)' % (
                 names.count('C31_REJECTED'), sc['deferred']), key
-        if len(ao.posted_events_queue) != sc['capacity'] or not all(f.is_set() for f in flags):
+        if len(ao.posted_events_queue) != sc['capacity'] or \
+                not all(f.is_set() for f in flags[sc.get('finished', 0):]):
             return False, 'tracked sources were disturbed by the rejected post', key
         return True, ''
     finally:
